@@ -61,6 +61,15 @@ class C01(PropCheck):
         ores = Owners().correspond(tier, seed, rng)
         failures += ores["failures"]
         dist["owner_drop_scenarios"] = ores["evaluations"]
+        # ... and the owners dropped while deliveries are in progress on other threads: what the actions captured
+        # (the write end of the self-pipe) is let go by the dropping thread, never inside a delivery
+        class Dropped(c09.IterCheck):
+            pid = "C01"
+            profile = "ownerdrop"
+        dres = Dropped().correspond(tier, seed, rng)
+        failures += dres["failures"]
+        dist["owners_dropped_under_deliveries"] = dres["evaluations"]
+        ores["evaluations"] += dres["evaluations"]
         uniq = {}
         for f in failures:
             uniq.setdefault(f["key"], f)
